@@ -13,6 +13,7 @@ PyMethodDef and luaL_Reg tables: duplicates, counts per declared function, gener
 import collections
 import json
 import os
+import re
 import shutil
 import subprocess
 import sys
@@ -260,7 +261,7 @@ def run(ctx):
             c = None if c == "-" else vlib.dec(c)
             f = None if f == "-" else vlib.dec(f)
             if c or f:
-                ents.append((c, f, vlib.dec(g)))
+                ents.append((c, f, vlib.dec(g), o))
         model[li][sc] = ents
     nb = 0
     fails = collections.OrderedDict()
@@ -278,8 +279,22 @@ def run(ctx):
             mod = model[li][sc]
             ctx.hist("scope:%s" % (sc or "global"))
             ctx.hist("emitted-functions", len(impl))
+            mod4 = mod
+            mod = [(a, b, g) for (a, b, g, _) in mod4]
             if [(a, b) for a, b, _ in impl] != [(a, b) for a, b, _ in mod] or \
                [g for a, b, g in impl if b] != [g for a, b, g in mod if b]:
+                # the first differing entry: when it belongs to a function whose suffix the user wrote, the documented template
+                # (prefix, scope, underscore name, the suffix as written) fixes the name on its own: a named failing input
+                for k, ((ia, ib, _), (ma, mb, _, mo)) in enumerate(zip(impl, mod4)):
+                    if (ia, ib) != (ma, mb):
+                        src = int(re.match(r"\d+", mo).group(0)) if re.match(r"\d+", mo) else -1
+                        if 0 <= src < len(fs) and (fs[src]["suffix"] is not None or fs[src]["das"]):
+                            fails.setdefault((None, "explicit suffix not honoured"), []).append({
+                                "what": "a function with an explicit function_suffix / default_arg_suffix is not named by the documented template",
+                                "name": "got C %r Fortran %r, documented %r / %r (function %s, suffix %r, default_arg_suffix %r)" % (
+                                    ia, ib, ma, mb, fs[src]["name"], fs[src]["suffix"], fs[src]["das"]),
+                                "library_yaml": texts[li]})
+                        break
                 nb += 1
                 ctx.broken.append(("correspondence", "Names.expand", "scope=%s library=%s impl=%s model=%s" % (sc, texts[li][:600], impl, mod)))
                 if nb <= 2:
